@@ -4,7 +4,8 @@
 patch="$1"; tier="$2"; shift 2
 cd /repo || exit 9
 if ! git diff --quiet; then echo "/repo has uncommitted changes"; exit 9; fi
-git apply "$patch" || { echo "patch does not apply"; exit 9; }
+git apply "$patch" 2>/dev/null || git apply --3way "$patch" 2>/dev/null || { echo "patch does not apply"; exit 9; }
+git reset -q 2>/dev/null
 trap 'git -C /repo checkout -- . ; git -C /repo clean -fdq -e target' EXIT
 for p in "$@"; do
   echo "=== $p ($tier) with $(basename $(dirname $patch))/$(basename $patch)"
